@@ -52,7 +52,7 @@ class LoopSpec(object):
 class Contract(object):
     def __init__(self, key, kinds=None, requires=(), ensures=(), modifies=(), loops=None, self_class=None,
                  env_post=None, props=(), pure=False, notes="", ghost_init=None, setup=None, types=None,
-                 raises_only=None):
+                 raises_only=None, asserts=None, axioms=None):
         self.key = key
         self.kinds = kinds or {}
         self.requires = list(requires)
@@ -66,6 +66,8 @@ class Contract(object):
         self.ghost_init = ghost_init
         self.setup = setup
         self.types = types or {}
+        self.asserts = list(asserts or [])
+        self.axioms = list(axioms or [])
         REGISTRY[key] = self
 
     @property
@@ -144,6 +146,12 @@ class Ctx(object):
 
     def isinstance(self, v, pycls):
         return z3.And(V.is_obj(v), C.subclass(C.cls_of(Val.ref(v)), pycls))
+
+    def preexisting(self, r):
+        """the reference r denotes an object that existed before the call"""
+        from .symexec import ALLOC0
+        lo, hi = getattr(self, "block", (None, None))
+        return r < (lo if lo is not None else ALLOC0)
 
     def fresh_obj(self, v):
         """v is an instance allocated during the call"""
@@ -251,6 +259,15 @@ class CallCtx(object):
             st.obligations.append(Obligation("%s/pre-of[%s:%s]" % (ex.env.fn.key, con.key, label), st.hyps(), goal, st.sig,
                                              "pre-of", label, con.props))
             st.assume(goal)
+        # caller-side assertions keyed by callee: "at the call to X the arguments satisfy ..."
+        mine = ex.env.contract
+        for label, callee_key, fn_as, props in (getattr(mine, "asserts", None) or []):
+            if callee_key == con.key:
+                from .loops import LoopCtx
+                L = LoopCtx(ex, st, st, None, None, None)
+                goal = fn_as(pre_ctx, L)
+                st.obligations.append(Obligation("%s/assert[%s@%s]" % (ex.env.fn.key, label, con.key), st.hyps(), goal,
+                                                 st.sig, "assert", label, props or mine.props))
         # snapshot old heap arrays lazily: old(field) is whatever the array was before havoc
         snap = {}
 
@@ -325,6 +342,8 @@ class CallCtx(object):
         from . import solve as _solve
         for label, fn_ens, props in con.ensures:
             st.assume(_solve.close_free(fn_ens(post_ctx)))
+        for ax in C.unknown_class_axioms(C.cls_of(excref)):       # the raised class may be one the verifier does not know
+            st.assume(z3.Implies(raised, ax))
         out = []
         for s2, tagk in ex.fork(st, [(z3.Not(raised), "ret"), (raised, "exc")], "call:" + con.key):
             # write mutated parameters back to the caller's variables is done by the caller through
